@@ -174,17 +174,17 @@ def run_timestep(ctx, mode):
     grid = 2 if ctx.thorough else 1
     jobs = []
     if mode == 'adaptive':
-        jobs.append(dict(consts=dict(Mode=mode, Grid=grid, MaxCalls=3 if ctx.thorough else 4, DoEmit=True),
+        jobs.append(dict(consts=dict(Mode=mode, Grid=grid, MaxCalls=3 if ctx.thorough else 4, NumBound=0, DoEmit=True),
                          kw=dict(workers=4)))
         if ctx.thorough:    # deep random behaviours beyond the exhaustive bound
-            jobs.append(dict(consts=dict(Mode=mode, Grid=1, MaxCalls=4, DoEmit=True), kw=dict(workers=4)))
-            jobs.append(dict(consts=dict(Mode=mode, Grid=2, MaxCalls=14, DoEmit=True),
-                             kw=dict(workers=2, simulate=12000, depth=16, seed=ctx.seed + 12)))
+            jobs.append(dict(consts=dict(Mode=mode, Grid=1, MaxCalls=4, NumBound=0, DoEmit=True), kw=dict(workers=4)))
+            jobs.append(dict(consts=dict(Mode=mode, Grid=2, MaxCalls=14, NumBound=2048, DoEmit=True),
+                             kw=dict(workers=2, simulate=6000, depth=16, seed=ctx.seed + 12)))
     elif mode == 'model':
-        jobs.append(dict(consts=dict(Mode=mode, Grid=grid, MaxCalls=400, DoEmit=True), kw=dict(workers=1),
+        jobs.append(dict(consts=dict(Mode=mode, Grid=grid, MaxCalls=400, NumBound=0, DoEmit=True), kw=dict(workers=1),
                          spec='LiveSpec', properties=['Termination']))
     else:
-        jobs.append(dict(consts=dict(Mode=mode, Grid=grid, MaxCalls=0, DoEmit=True), kw=dict(workers=2)))
+        jobs.append(dict(consts=dict(Mode=mode, Grid=grid, MaxCalls=0, NumBound=0, DoEmit=True), kw=dict(workers=2)))
     out = []
     for n, j in enumerate(jobs):
         cfg = write_cfg(ctx.scratch / ('ts_%s_%d.cfg' % (mode, n)), j['consts'], invariants=TS_INVS,
@@ -198,7 +198,8 @@ def run_timestep(ctx, mode):
 
 def sig_beh(beh):
     p = beh['par']
-    ev = ','.join(e['k'] if e['k'] != 'r' else '%d/%d' % tuple(e['s']) for e in beh.get('events', []))
+    evs = [e['k'] if e['k'] != 'r' else '%d/%d' % tuple(e['s']) for e in beh.get('events', [])]
+    ev = ','.join(evs) if len(evs) <= 8 else ','.join(evs[:6]) + ',...(%d events)' % len(evs)
     return 'par=%s events=[%s]' % (json.dumps(p, sort_keys=True, separators=(',', ':')), ev)
 
 
